@@ -28,6 +28,8 @@ namespace GqlgenVerif.Pipeline.Race
 /-- program counter of one request thread inside `parseQuery` -/
 inductive Pc where
   | swap          -- both calls inside `validatorRulesMu.Lock()`…`Unlock()`: one atomic step
+  | rmLocked      -- RemoveRule alone inside a `Lock()`…`Unlock()` region of its own: one atomic step
+  | rpLocked      -- ReplaceRule alone inside a second `Lock()`…`Unlock()` region: one atomic step
   | rmRead        -- RemoveRule: evaluate `range specifiedRules`
   | rmWrite       -- RemoveRule: `specifiedRules = result`
   | rpRead        -- ReplaceRule: evaluate `range specifiedRules`
@@ -55,6 +57,8 @@ structure State where
 def stepThread (g : Rules) (t : Thread) : Rules × Thread :=
   match t.pc with
   | .swap => (swapRules g, { t with pc := .valRead })
+  | .rmLocked => (removeRule .foct g, { t with pc := .rpLocked })
+  | .rpLocked => (replaceRule .ws g, { t with pc := .valRead })
   | .rmRead => (g, { t with pc := .rmWrite, loc := removeRule .foct g })
   | .rmWrite => (t.loc, { t with pc := .rpRead })
   | .rpRead =>
@@ -88,6 +92,34 @@ def exec : State → List Nat → State
 writer lock and every `Validate` under the reader lock, `Steps.swapAtomic` of the source skeleton) -/
 def start (atomic : Bool) (g : Rules) (n : Nat) : State :=
   { global := g, threads := List.replicate n { pc := if atomic then .swap else .rmRead } }
+
+/-- how the source guards the swap (`Steps.lockShape` of the regenerated skeleton) -/
+inductive LockShape where
+  /-- `Lock(); RemoveRule; ReplaceRule; Unlock()` and `RLock(); Validate; RUnlock()` -/
+  | atomic
+  /-- `Lock(); RemoveRule; Unlock(); Lock(); ReplaceRule; Unlock()` and `RLock(); Validate; RUnlock()`:
+  no data race, but two critical sections -/
+  | split
+  /-- anything else: the fine-grained reads and writes -/
+  | unguarded
+  deriving DecidableEq, Repr
+
+/-- `Steps.lockShapeCode` of the regenerated skeleton -/
+def LockShape.ofCode : Nat → LockShape
+  | 0 => .atomic
+  | 1 => .split
+  | _ => .unguarded
+
+def LockShape.entry : LockShape → Pc
+  | .atomic => .swap
+  | .split => .rmLocked
+  | .unguarded => .rmRead
+
+/-- a process with several executors: `n` request threads of executors with `disableSuggestion` (they
+enter the rule swap) and `m` request threads of executors without it (they only `Validate`), all
+against the one global rule list -/
+def startMixed (shape : LockShape) (g : Rules) (n m : Nat) : State :=
+  { global := g, threads := List.replicate n { pc := shape.entry } ++ List.replicate m { pc := .valRead } }
 
 /-- a field-existence rule (either variant) is in the list -/
 def hasFieldRule (l : Rules) : Bool := l.contains .foct || l.contains .ws
